@@ -43,6 +43,13 @@ CHECKS = {
         'note': 'Trusted: shim, clang, that a processor constructed with its ZoneInfo is "fresh". Crashes that need no history are noted for C09, not reported here. The Python ZoneSpecifier half is a separate engine (pysim) run by the same command.',
         'design': '§5.C08, Appendix A.3',
     },
+    'C09': {
+        'engine': 'simdev',
+        'technique': 'deterministic simulation with fault injection under ASan+UBSan: whole-device call histories (repeated / interleaved failing queries, reboots, clock faults) with error-persistence and pool monitors',
+        'text': 'Decides the history-and-repetition half of C09: seeded whole-device runs (all tz query kinds incl. INT32 extremes, sentinel, invalid components, out-of-range years repeated 1-3 times and interleaved with valid ones; save/reboot/restore; SystemClockLoop with a faulty reference; queries at the clock\'s current time) in the ASan+UBSan build. Any sanitizer report is attributed by source location; errors must stay errors on every repeat; extended pool high-water < transitionBufSize and < 8; basic dropped-transition counter (guarded hook) stays 0. The "for ALL argument values / every generated zone" half is an input sweep and is NOT decided; no-history UB met on the way is still reported.',
+        'note': 'Trusted: shim, sanitizer runtimes, the generator\'s knowledge of which arguments are out of range (years <= startYear-3 or >= untilYear+2, sentinel, components the library itself defines invalid). Date -> epoch-seconds conversions of dates outside 1932..2067 are not exercised (input-domain half). UBSan reports a location once per process.',
+        'design': '§5.C09',
+    },
     'C16': {
         'engine': 'simdev',
         'technique': 'deterministic simulation with crash/restart: save to a durable store, reboot with newly drawn managers / cache sizes / registries, restore; catalogue oracle',
@@ -53,7 +60,6 @@ CHECKS = {
 }
 
 PENDING = {
-    'C09': 'claimed in part in DESIGN.md; check under construction (device profile, sanitizer build)',
     'C20': 'claimed (clause 1) in DESIGN.md; check under construction (detcompile)',
 }
 
